@@ -286,9 +286,18 @@ class DictReader:
                 # Make sure to always use the correct odml format attribute name
                 doc_attrs[odmlfmt.Document.map(attr)] = self.parsed_doc[i]
 
-        doc = odmlfmt.Document.create(**doc_attrs)
+        try:
+            doc = odmlfmt.Document.create(**doc_attrs)
+        except Exception as exc:
+            msg = "Document not created (%s)\n  %s" % (doc_attrs, str(exc))
+            self.error(msg)
+            doc = odmlfmt.Document.create()
+
         for sec in doc_secs:
-            doc.append(sec)
+            try:
+                doc.append(sec)
+            except Exception as exc:
+                self.error("Section not added (%s)\n  %s" % (sec, str(exc)))
 
         return doc
 
